@@ -474,6 +474,8 @@ def compaction_stage_order(chk, rng, base):
     # the suite removes the data directory at the end: everything from the removal of db_lock / index on is clean-up
     stop = next((i for i, m in enumerate(j) if m[0] == "U" and name(m) in ("db_lock", "index")), len(j))
     j = j[:stop]
+    while j and j[-1][0] == "U":          # (the directory is removed in directory order: snapshot files may go first)
+        j.pop()
     creates = [i for i, m in enumerate(j) if m[0] == "C" and name(m).startswith("snapshot_")]
     n_ok = 0
     for ci, c in enumerate(creates):
@@ -523,6 +525,16 @@ def run(chk, replay=None):
     os.makedirs(base)
     try:
         _run(chk, rng, quick, proofs_ok, base)
+        # the writer actor's Flush answer (after which the catalogue is saved) must not precede the data
+        fa = lib.harness_run("snapfile", [{"k": "flush_ack", "n": n, "size": size} for n, size in ((3, 100), (5, 200000), (3, 4000000), (10, 1000000))] * 2)
+        short = [r for r in fa if r.get("r") == "ok" and r["at_ack"] < r["want"]]
+        chk.cov["flush_ack_cases"] = len(fa)
+        if short or any(r.get("r") != "ok" for r in fa):
+            r0 = (short or fa)[0]
+            chk.classify("snapshot-flush-ack", "SnapshotWriterActor answered Flush while only %s of %s bytes of the snapshot file were on disk (in %d of %d "
+                         "runs): do_build_snapshot saves the catalogue right after that answer, so a kill in the window leaves a catalogue "
+                         "naming an incomplete snapshot file" % (r0.get("at_ack"), r0.get("want"), len(short), len(fa)),
+                         {"suite": "snapfile", "case": {"k": "flush_ack", "n": 5, "size": 200000}, "impl": r0})
         chk.cov["compactions_in_model_stage_order"] = sum(compaction_stage_order(chk, rng, os.path.join(base, "cmp%d" % i))
                                                           for i in range(1 if quick else 6))
     finally:
